@@ -2,6 +2,8 @@ package checks
 
 import (
 	"fmt"
+	"github.com/trustbloc/sidetree-go/pkg/patch"
+	"github.com/trustbloc/sidetree-go/pkg/versions/1_0/model"
 
 	"github.com/trustbloc/sidetree-go/pkg/api/protocol"
 	"github.com/trustbloc/sidetree-go/pkg/document"
@@ -234,7 +236,8 @@ func c11CheckSeq(c *fw.Case, composer *doccomposer.DocumentComposer, doc map[str
 		c.Inconclusive("conversion")
 		return
 	}
-	if verr := patchvalidator.Validate(lp); verr != nil {
+	route := c.Rng.Intn(6)
+	if verr := c11Validate(c, route, lp); verr != nil {
 		c.Count("refused-by-validator", 1)
 		c.Sig(sig, "refused")
 		return
@@ -243,7 +246,7 @@ func c11CheckSeq(c *fw.Case, composer *doccomposer.DocumentComposer, doc map[str
 	if ops2 != nil {
 		p2 = gen.PJSON(ops2...)
 		lp2, err := sut.ToPatch(p2)
-		if err != nil || patchvalidator.Validate(lp2) != nil {
+		if err != nil || c11Validate(c, route, lp2) != nil {
 			c.Count("refused-by-validator", 1)
 			c.Sig(sig, "refused")
 			return
@@ -361,4 +364,27 @@ func c11ResolvedView(d document.Document) (interface{}, bool) {
 		return nil, false
 	}
 	return g, true
+}
+
+var c11Commitment = oracle.B64(oracle.WrapDigest(18, make([]byte, 32)))
+
+// c11Validate asks one of the public routes to patch validation for its verdict on an ietf-json-patch: the dispatching Validate, the
+// JSON validator as a zero value / through its constructor, or the parser's delta validation under several lists of enabled actions
+// (a protocol that enables nothing validates nothing successfully).
+func c11Validate(c *fw.Case, route int, lp patch.Patch) error {
+	switch route {
+	case 2:
+		c.Count("validator-route:zero-value-JSONValidator", 1)
+		return (&patchvalidator.JSONValidator{}).Validate(lp)
+	case 3:
+		c.Count("validator-route:NewJSONValidator", 1)
+		return patchvalidator.NewJSONValidator().Validate(lp)
+	case 4, 5:
+		p := sut.Proto()
+		p.Patches = fw.Pick(c.Rng, [][]string{nil, {}, {"ietf-json-patch"}, p.Patches, {"replace", "ietf-json-patch"}})
+		c.Count("validator-route:Parser.ValidateDelta", 1)
+		return sut.SharedStack(p).Parser.ValidateDelta(&model.DeltaModel{UpdateCommitment: c11Commitment, Patches: []patch.Patch{lp}})
+	}
+	c.Count("validator-route:Validate", 1)
+	return patchvalidator.Validate(lp)
 }
